@@ -14,6 +14,18 @@ from ._helpers_rules_c import (
     attr_store_sites, both, call_nodes, calls_ending, cut_edges, must_pass, quiet, rcfg, test_edges,
     PathSense, is_logging_call as _is_log, outcome as _outcome, own_calls as _own_calls,
 )
+from ._helpers_rob_a import helper_callers, normal_form, transitive_owners
+
+# attributes other threads change at any time: a local computed from them is a snapshot, never an alias
+VOLATILE = ("self._overflow", "self.queue")
+
+
+def _nf(ctx, f, *keep, alias="all", inline=True, temps=False):
+    """Function (key or FuncInfo) in refactoring-robust normal form: extracted helpers inlined, single-assignment
+    locals resolved unless they snapshot shared mutable state (see _helpers_rob_a)."""
+    if isinstance(f, str):
+        f = ctx.func(f)
+    return normal_form(ctx, f, keep=keep, alias=alias, inline=inline, volatile=VOLATILE, temps=temps)
 
 R = Registry(
     "C25",
@@ -77,29 +89,18 @@ def r1(ctx):
             if owner in OVERFLOW_UNLOCKED_OK:
                 ctx.ok(key, "unlocked by contract: " + OVERFLOW_UNLOCKED_OK[owner], nontrivial=False)
                 continue
-            pm = m.parents()
-            if _lock_withs(pm, st, None, "self._overflow_lock"):
-                ctx.ok(key, "inside `with self._overflow_lock`")
-                continue
-            f = ix.func(owner)
-            g = ctx.cfg(f)
-            nolimit = False
-            for n in g.nodes_for(st):
-                atoms = guard_atoms(g.edge_guards(n))
-                nolimit = ("self._max_overflow == -1", True) in atoms
-                if not nolimit:
-                    break
-            ctx.check(nolimit, key,
+            how = _write_protected(ctx, ix.func(owner), st, 2)
+            ctx.check(how is not None, key,
                       f"`{unparse(st)}` changes the overflow counter outside `with self._overflow_lock` "
                       f"while a limit is enforced (lost update / limit overrun under concurrency)",
-                      "no lock needed: dominated by `_max_overflow == -1`", loc)
+                      how or "", loc)
     # check-then-act atomicity in _inc_overflow.  Every increment that can run while a limit is
     # enforced must be dominated (on the CFG: nested `if`, early return, either style) by a branch
     # outcome that establishes `_overflow < _max_overflow`, and that test must be evaluated inside the
     # very `with self._overflow_lock` statement that holds the increment.  A second, unlocked copy of
     # the test (fast path) is harmless and ignored; a test that lives only outside the region is not.
-    f = ctx.func(f"{IMPL}::QueuePool._inc_overflow")
-    pm = f.module.parents()
+    f = _nf(ctx, f"{IMPL}::QueuePool._inc_overflow")
+    pm = f.pm
     g = ctx.cfg(f)
     incs = [st for d, t, st in attr_stores(f.node) if d == "self._overflow" and isinstance(st, ast.AugAssign)]
     ctx.require(incs, "_inc_overflow does not increment self._overflow")
@@ -169,6 +170,49 @@ def r1(ctx):
             bad.append(f"line {n.stmt.lineno}: returns `{flag}` on a path that neither increments nor knows `{flag}` to be false")
     ctx.check(not bad, f.key + ":answer-matches-increment", "; ".join(bad),
               "returns true exactly on the paths that incremented", f.loc)
+
+
+def _write_protected(ctx, f0, node, depth):
+    """Why the statement / call `node` of function f0 cannot race on the overflow counter: it sits in a
+    `with self._overflow_lock` region, or is dominated by `_max_overflow == -1` (no limit to keep), or f0 is a
+    private helper every call of which (from QueuePool itself) is so protected.  None = unprotected."""
+    f = _nf(ctx, f0, inline=False)
+    g = ctx.cfg(f)
+    copies = f.copies(node)
+    ctx.require(copies, f"{f.key}: lost track of `{unparse(node)[:60]}` in the normal form")
+    how = set()
+    for c in copies:
+        st = c
+        while not isinstance(st, ast.stmt):
+            st = f.pm[st]
+        if _lock_withs(f.pm, st, None, "self._overflow_lock"):
+            how.add("inside `with self._overflow_lock`")
+            continue
+        nodes = g.nodes_for(st)
+        if nodes and all(("self._max_overflow == -1", True) in guard_atoms(g.edge_guards(n)) for n in nodes):
+            how.add("no lock needed: dominated by `_max_overflow == -1`")
+            continue
+        how.add(None)
+    if None not in how:
+        return "; ".join(sorted(how))
+    if depth <= 0:
+        return None
+    callers = helper_callers(ctx.index, f0)
+    if not callers:
+        return None
+    name, why = f0.name, set()
+    for ck in callers:
+        if ck == f0.key:
+            continue
+        cf = ctx.index.func(ck)
+        ctx.functions_analysed.add(cf.key)
+        for c in calls_in(cf.node):
+            if isinstance(c.func, ast.Attribute) and c.func.attr == name:
+                r = _write_protected(ctx, cf, c, depth - 1)
+                if r is None:
+                    return None
+                why.add(r)
+    return (f"private helper; every call site protected ({'; '.join(sorted(why))})") if why else None
 
 
 def _anc(pm, node):
@@ -303,8 +347,11 @@ def _limit_facts(ctx, f, pm, test, pol, site, depth=0):
 
 
 # ---------------------------------------------------------------------- C25-R2 (shared with C26-R5)
+_DO_GET_KEEP = ("_inc_overflow", "_dec_overflow", "_create_connection", "_do_get", "get")
+
+
 def overflow_pairing(ctx):
-    f = ctx.func(f"{IMPL}::QueuePool._do_get")
+    f = _nf(ctx, f"{IMPL}::QueuePool._do_get", *_DO_GET_KEEP, alias="dotted", temps=True)
     # strict: `except Exception` does not stop CancelledError / KeyboardInterrupt / GreenletExit, and a
     # cancelled asyncio checkout inside creator() is an everyday event for AsyncAdaptedQueuePool
     g = rcfg(ctx, f, strict_exc=True)
@@ -330,7 +377,7 @@ def overflow_pairing(ctx):
                   "create failure -> _dec_overflow() -> re-raise", f.loc, w)
     # no path decrements twice / decrements on success
     succ_ret = [n.id for n in g.nodes if n.kind == "stmt" and isinstance(n.stmt, ast.Return) and n.id in create]
-    fr = ctx.func(f"{IMPL}::QueuePool._do_return_conn")
+    fr = _nf(ctx, f"{IMPL}::QueuePool._do_return_conn", "_dec_overflow", "put", "put_nowait", "close", alias="dotted")
     gr = rcfg(ctx, fr)
     decr = calls_ending(gr, "_dec_overflow")
     full = [n.id for n in gr.nodes if n.kind == "handler" and n.stmt.type is not None
@@ -411,9 +458,10 @@ def _checkout_limits(ctx):
     """QueuePool._do_get / _do_return_conn: who may open a connection, when a checkout blocks, when it
     gives up; a returning thread never blocks.  (Not shared with C26.)"""
     ix = ctx.index
-    f = ctx.func(f"{IMPL}::QueuePool._do_get")
+    f = _nf(ctx, f"{IMPL}::QueuePool._do_get", *_DO_GET_KEEP, alias="dotted", temps=True)
     g = rcfg(ctx, f)
-    pm = f.module.parents()
+    pm = f.pm
+    pm_mod = f.module.parents()
     qc = ix.cls(f"{QUEUE}::QueueCommon")
     # (a) a new connection is opened only by the holder of a freshly taken overflow slot
     got = test_edges(g, lambda t, p: t == "self._inc_overflow()" and p is True)
@@ -433,13 +481,13 @@ def _checkout_limits(ctx):
                  and {_OVF, _MAX} <= {dotted(x) for x in ast.walk(c) if isinstance(x, ast.Attribute)}]
         gm = ctx.cfg(m) if sites else None
         for i, c in enumerate(sites):
-            kind = _limit_facts(ctx, m, pm, c, True, c)[0][0]
+            kind = _limit_facts(ctx, m, pm_mod, c, True, c)[0][0]
             n_cmp += 1
             # the comparison means something only while a limit is enforced (the counter passes -1 on its way
             # up in an unlimited pool): dominated by, or conjoined with, a 'limited' fact
             top = c
-            while isinstance(pm.get(top), (ast.BoolOp, ast.UnaryOp)):
-                top = pm[top]
+            while isinstance(pm_mod.get(top), (ast.BoolOp, ast.UnaryOp)):
+                top = pm_mod[top]
             conj_ok = any(a is c for a, p in _conj(top, True)) and _limited_facts(m.node, top, True)
             dom_ok = any(_limited_facts(m.node, t, pol) for nid in gm.nodes_containing(c) for t, pol in gm.edge_guards(nid))
             ctx.check(conj_ok or dom_ok, f"{m.key}:limit-test-only-when-limited" + (f"#{i}" if len(sites) > 1 else ""),
@@ -542,7 +590,7 @@ def _checkout_limits(ctx):
     ctx.check(not bad, f.key + ":timeout-only-after-wait", "; ".join(bad),
               "TimeoutError only after a blocking get() and while still at the limit", f.loc)
     # (e) a returning thread never blocks: the put that `except Full` guards is non-blocking
-    fr = ctx.func(f"{IMPL}::QueuePool._do_return_conn")
+    fr = _nf(ctx, f"{IMPL}::QueuePool._do_return_conn", "_dec_overflow", "put", "put_nowait", "close", alias="dotted")
     gr = rcfg(ctx, fr)
     puts = [c for n in calls_ending(gr, "put", "put_nowait") for c in _own_calls(gr.nodes[n])
             if (call_name(c) or "").rsplit(".", 1)[-1] in ("put", "put_nowait")]
@@ -593,13 +641,15 @@ def _queue_facts(ctx):
 def r3(ctx):
     q, lock, conds, touching = _queue_facts(ctx)
     held = {lock} | set(conds)
-    pm = q.module.parents()
     private = {n for n in touching if n.startswith("_")}
     ctx.require(private, "no private deque-touching methods in Queue")
     for name, m in sorted(q.methods.items()):
         if name.startswith("_"):
             continue
         ctx.functions_analysed.add(m.key)
+        # (a private helper of the public method that calls the deque-touching methods is part of it)
+        m = _nf(ctx, m, *private, alias="dotted")
+        pm = m.pm
         sites = {}
         for c in calls_in(m.node):
             nm = call_name(c) or ""
@@ -627,10 +677,14 @@ PRED = {"put": ("_full", "Full", "_put"), "get": ("_empty", "Empty", "_get")}
              "the opposite side waits on, on every normal path; timed waits raise Full/Empty when time runs out")
 def r4(ctx):
     q, lock, conds, touching = _queue_facts(ctx)
-    pm = q.module.parents()
     waited = {}
+
+    def _method(name):
+        pred, exc_name, mut = PRED[name]
+        return _nf(ctx, ctx.method(q.key, name), pred, mut, "wait", "notify", "notify_all", alias="dotted")
     for name, (pred, exc_name, mut) in PRED.items():
-        m = ctx.method(q.key, name)
+        m = _method(name)
+        pm = m.pm
         waits = [c for c in calls_in(m.node) if (call_name(c) or "").endswith(".wait") and (call_name(c) or "")[:-5] in conds]
         ctx.require(waits, f"Queue.{name} has no Condition.wait()")
         problems = []
@@ -675,7 +729,7 @@ def r4(ctx):
     # outcome "not full" / "not empty" (an `if`-false edge, or leaving the `while`), whatever the
     # blocking mode.  (This subsumes the classic while->if mistake on the path level.)
     for name, (pred, exc_name, mut) in PRED.items():
-        m = ctx.method(q.key, name)
+        m = _method(name)
         g = ctx.cfg(m)
         muts = call_nodes(g, lambda nm, c: nm == f"self.{mut}")
         ctx.require(muts, f"Queue.{name} does not call self.{mut}()")
@@ -694,7 +748,7 @@ def r4(ctx):
     # blocking mode: a caller that said block=False never waits; wait() without a timeout only when the
     # caller gave none, wait(t) only when it gave one; and a wait loop gives the lock away on every turn
     for name, (pred, exc_name, mut) in PRED.items():
-        m = ctx.method(q.key, name)
+        m = _method(name)
         g = ctx.cfg(m)
         ctx.require("block" in m.params and "timeout" in m.params, f"Queue.{name} has no block / timeout parameters")
         waits = [(n, c) for n in call_nodes(g, lambda nm, c: nm.endswith(".wait") and nm[:-5] in conds)
@@ -741,7 +795,7 @@ def r4(ctx):
                   f"a `while self.{pred}()` loop can go round without wait(): it spins while holding the queue lock, so the "
                   f"other side can never {'take an item' if name == 'put' else 'put a connection back'} (the pool stops)",
                   "every turn of the predicate loops passes wait()", m.loc, w)
-    mget = ctx.method(q.key, "get")
+    mget = _method("get")
     bad = []
     for r in [n for n in walk_local(mget.node) if isinstance(n, ast.Return)]:
         v = r.value
@@ -754,7 +808,8 @@ def r4(ctx):
     # notify pairing
     for name, (pred, exc_name, mut) in PRED.items():
         other = "get" if name == "put" else "put"
-        m = ctx.method(q.key, name)
+        m = _method(name)
+        pm = m.pm
         g = ctx.cfg(m)
         muts = call_nodes(g, lambda nm, c: nm == f"self.{mut}")
         ctx.require(muts, f"Queue.{name} does not call self.{mut}()")
@@ -828,13 +883,24 @@ def r6(ctx):
     seen = {}
     for owner, d, st, m in sites:
         seen.setdefault(owner, []).append((d, st, m))
+    done = set()
     for owner in sorted(seen):
         d, st, m = seen[owner][0]
+        if owner not in FAIRY_REF_WRITERS:
+            # a private helper all of whose callers are listed writers acts for them (extracted helper)
+            acts_for = transitive_owners(ctx.index, owner, FAIRY_REF_WRITERS)
+            if acts_for:
+                for o in acts_for:
+                    if o not in seen and o not in done:
+                        done.add(o)
+                        ctx.ok(f"{o}:fairy_ref", FAIRY_REF_WRITERS[o] + f" (through its private helper {owner.split('::')[1]})",
+                               nontrivial=False)
+                continue
         ctx.check(owner in FAIRY_REF_WRITERS, f"{owner}:fairy_ref",
                   f"`{unparse(st).splitlines()[0]}` writes fairy_ref outside its owners "
                   f"({', '.join(sorted(k.split('::')[1] for k in FAIRY_REF_WRITERS))}): the checked-out state can be forged",
                   FAIRY_REF_WRITERS.get(owner, ""), f"{m.path}:{st.lineno}", nontrivial=False)
-    f = ctx.func(f"{POOL}::_ConnectionRecord.checkin")
+    f = _nf(ctx, f"{POOL}::_ConnectionRecord.checkin", "_return_conn", alias="dotted")
     g = ctx.cfg(f)
     ret = calls_ending(g, "_return_conn")
     ctx.require(ret, "no _return_conn() in checkin")
@@ -977,6 +1043,7 @@ def _gc_ownership(ctx):
     # 2. inside the finalizer: every action on the record is behind `ref is None` (direct call) or
     #    `record.fairy_ref is ref` (gc call that still owns the record)
     ctx.functions_analysed.add(F.key)
+    F = _nf(ctx, F, "checkin", "_reset", "invalidate", alias=None)
     g = ctx.cfg(F)
     fn = F.node
 
